@@ -2,4 +2,239 @@
 import PjVerif.Model.CsvRec
 namespace Pj.Csv
 
+/-! ### text layer: the reader undoes the writer -/
+
+/-- explicit reader state, no error -/
+abbrev S (st : St) (fld : List Char) (fs : List (List Char)) (rs : List (List (List Char))) : P :=
+  { st := st, field := fld, fields := fs, recs := rs, err := false }
+
+/-- a character that never forces quoting -/
+def plain (c : Char) : Prop := (c == delim) = false ∧ (c == quote) = false ∧ (c == '\r') = false ∧ (c == '\n') = false
+
+theorem needsQuote_false {f : List Char} (h : needsQuote f = false) : ∀ c ∈ f, plain c := by
+  intro c hc
+  have := (List.any_eq_false.mp h) c hc
+  simp only [Bool.or_eq_true, not_or, Bool.not_eq_true] at this
+  exact ⟨this.1.1.1, this.1.1.2, this.1.2, this.2⟩
+
+theorem feed_cons (p : P) (b : Bool) (c : Char) (cs : List Char) :
+    feed p b (c :: cs) = if c == '\n' then feed (endLine (stepChar p (some c))) true cs
+      else feed (stepChar p (some c)) false cs := by
+  simp only [feed]
+
+theorem feed_cons_nl (p : P) (b : Bool) (cs : List Char) :
+    feed p b ('\n' :: cs) = feed (endLine (stepChar p (some '\n'))) true cs := by
+  simp [feed_cons]
+
+theorem feed_cons_ne (p : P) (b : Bool) (c : Char) (cs : List Char) (h : (c == '\n') = false) :
+    feed p b (c :: cs) = feed (stepChar p (some c)) false cs := by
+  simp [feed_cons, h]
+
+theorem feed_flag (p : P) (b b' : Bool) (c : Char) (cs : List Char) : feed p b (c :: cs) = feed p b' (c :: cs) := by
+  simp only [feed]
+
+/-! #### single steps -/
+section steps
+variable (fld : List Char) (fs : List (List Char)) (rs : List (List (List Char)))
+
+theorem step_plain_inField {c : Char} (h : plain c) :
+    stepChar (S .inField fld fs rs) (some c) = S .inField (c :: fld) fs rs := by
+  obtain ⟨h1, h2, h3, h4⟩ := h; simp [stepChar, h1, h3, h4]
+theorem step_plain_startField {c : Char} (h : plain c) :
+    stepChar (S .startField fld fs rs) (some c) = S .inField (c :: fld) fs rs := by
+  obtain ⟨h1, h2, h3, h4⟩ := h; simp [stepChar, h1, h2, h3, h4]
+theorem step_plain_startRecord {c : Char} (h : plain c) :
+    stepChar (S .startRecord fld fs rs) (some c) = S .inField (c :: fld) fs rs := by
+  obtain ⟨h1, h2, h3, h4⟩ := h; simp [stepChar, h1, h2, h3, h4]
+
+theorem step_quote_startField : stepChar (S .startField fld fs rs) (some quote) = S .inQuoted fld fs rs := by
+  simp [stepChar, quote]
+theorem step_quote_startRecord : stepChar (S .startRecord fld fs rs) (some quote) = S .inQuoted fld fs rs := by
+  simp [stepChar, quote]
+theorem step_quote_inQuoted : stepChar (S .inQuoted fld fs rs) (some quote) = S .quoteInQuoted fld fs rs := by
+  simp [stepChar]
+theorem step_quote_quoteInQuoted :
+    stepChar (S .quoteInQuoted fld fs rs) (some quote) = S .inQuoted (quote :: fld) fs rs := by
+  simp [stepChar, quote]
+theorem step_other_inQuoted {c : Char} (h : (c == quote) = false) :
+    stepChar (S .inQuoted fld fs rs) (some c) = S .inQuoted (c :: fld) fs rs := by
+  simp [stepChar, h]
+theorem endLine_inQuoted : endLine (S .inQuoted fld fs rs) = S .inQuoted fld fs rs := by
+  simp [endLine, stepChar]
+
+theorem step_delim_startField :
+    stepChar (S .startField fld fs rs) (some delim) = S .startField [] (fld.reverse :: fs) rs := by
+  simp [stepChar, delim, quote, P.saveField]
+theorem step_delim_startRecord :
+    stepChar (S .startRecord fld fs rs) (some delim) = S .startField [] (fld.reverse :: fs) rs := by
+  simp [stepChar, delim, quote, P.saveField]
+theorem step_delim_inField :
+    stepChar (S .inField fld fs rs) (some delim) = S .startField [] (fld.reverse :: fs) rs := by
+  simp [stepChar, delim, P.saveField]
+theorem step_delim_quoteInQuoted :
+    stepChar (S .quoteInQuoted fld fs rs) (some delim) = S .startField [] (fld.reverse :: fs) rs := by
+  simp [stepChar, delim, quote, P.saveField]
+
+theorem step_cr_startField :
+    stepChar (S .startField fld fs rs) (some '\r') = S .eatCrnl [] (fld.reverse :: fs) rs := by
+  simp [stepChar, P.saveField]
+theorem step_cr_inField :
+    stepChar (S .inField fld fs rs) (some '\r') = S .eatCrnl [] (fld.reverse :: fs) rs := by
+  simp [stepChar, P.saveField]
+theorem step_cr_quoteInQuoted :
+    stepChar (S .quoteInQuoted fld fs rs) (some '\r') = S .eatCrnl [] (fld.reverse :: fs) rs := by
+  simp [stepChar, P.saveField]
+theorem step_cr_startRecord :
+    stepChar (S .startRecord fld fs rs) (some '\r') = S .eatCrnl fld fs rs := by
+  simp [stepChar]
+theorem step_nl_eatCrnl : stepChar (S .eatCrnl fld fs rs) (some '\n') = S .eatCrnl fld fs rs := by
+  simp [stepChar]
+theorem endLine_eatCrnl : endLine (S .eatCrnl fld fs rs) = S .startRecord fld [] (fs.reverse :: rs) := by
+  simp [endLine, stepChar]
+end steps
+
+/-- "\r\n" in state `eatCrnl`-bound situations: the line ends, the record is emitted -/
+theorem feed_nl_eatCrnl (fld fs rs b rest) :
+    feed (S .eatCrnl fld fs rs) b ('\n' :: rest) = feed (S .startRecord fld [] (fs.reverse :: rs)) true rest := by
+  rw [feed_cons_nl, step_nl_eatCrnl, endLine_eatCrnl]
+
+theorem feed_plain (fs : List (List Char)) (rs) (t : Char) (rest : List Char) :
+    ∀ (f fld : List Char) (b : Bool), (∀ c ∈ f, plain c) →
+      feed (S .inField fld fs rs) b (f ++ t :: rest) = feed (S .inField (f.reverse ++ fld) fs rs) false (t :: rest)
+  | [], fld, b, _ => by simpa using feed_flag _ _ _ _ _
+  | c :: cs, fld, b, h => by
+    have hc := h c (by simp)
+    have ih := feed_plain fs rs t rest cs (c :: fld) false (fun d hd => h d (by simp [hd]))
+    rw [List.cons_append, feed_cons_ne _ _ _ _ hc.2.2.2, step_plain_inField _ _ _ hc, ih]
+    simp
+
+theorem feed_quoted (fs : List (List Char)) (rs) (rest : List Char) :
+    ∀ (f fld : List Char) (b : Bool),
+      feed (S .inQuoted fld fs rs) b (escapeQuotes f ++ quote :: rest) =
+        feed (S .quoteInQuoted (f.reverse ++ fld) fs rs) false rest
+  | [], fld, b => by
+    rw [escapeQuotes, List.nil_append, feed_cons_ne _ _ _ _ (by simp [quote]), step_quote_inQuoted]; simp
+  | c :: cs, fld, b => by
+    have ih := feed_quoted fs rs rest cs (c :: fld) 
+    by_cases hq : c == quote
+    · have : c = quote := by simpa using hq
+      subst this
+      rw [escapeQuotes, if_pos hq, List.cons_append, List.cons_append,
+        feed_cons_ne _ _ _ _ (by simp [quote]), step_quote_inQuoted,
+        feed_cons_ne _ _ _ _ (by simp [quote]), step_quote_quoteInQuoted, ih]
+      simp
+    · have hq' : (c == quote) = false := by simpa using hq
+      rw [escapeQuotes, if_neg hq, List.cons_append, feed_cons, step_other_inQuoted _ _ _ hq', endLine_inQuoted]
+      split <;> (rw [ih]; simp)
+
+/-- reading one encoded field up to (not including) its terminator `t` -/
+theorem feed_field (st : St) (hst : st = .startField ∨ st = .startRecord) (f : List Char) (fs rs) (b : Bool)
+    (t : Char) (rest : List Char) :
+    ∃ st', ((st' = st ∧ f = []) ∨ st' = .inField ∨ st' = .quoteInQuoted) ∧
+      feed (S st [] fs rs) b (encodeField f ++ t :: rest) = feed (S st' f.reverse fs rs) false (t :: rest) := by
+  unfold encodeField
+  by_cases hq : needsQuote f
+  · refine ⟨.quoteInQuoted, Or.inr (Or.inr rfl), ?_⟩
+    rw [if_pos hq]
+    simp only [List.cons_append, List.append_assoc]
+    rw [feed_cons_ne _ _ _ _ (by simp [quote])]
+    rcases hst with rfl | rfl
+    · rw [step_quote_startField, feed_quoted]; simp
+    · rw [step_quote_startRecord, feed_quoted]; simp
+  · have hq' : needsQuote f = false := by simpa using hq
+    have hp := needsQuote_false hq'
+    rw [if_neg hq]
+    cases f with
+    | nil => exact ⟨st, Or.inl ⟨rfl, rfl⟩, by simpa using feed_flag _ _ _ _ _⟩
+    | cons c cs =>
+      refine ⟨.inField, Or.inr (Or.inl rfl), ?_⟩
+      have hc := hp c (by simp)
+      rw [List.cons_append, feed_cons_ne _ _ _ _ hc.2.2.2]
+      rcases hst with rfl | rfl
+      · rw [step_plain_startField _ _ _ hc, feed_plain _ _ _ _ _ _ _ (fun d hd => hp d (by simp [hd]))]; simp
+      · rw [step_plain_startRecord _ _ _ hc, feed_plain _ _ _ _ _ _ _ (fun d hd => hp d (by simp [hd]))]; simp
+
+theorem feed_field_delim (st : St) (hst : st = .startField ∨ st = .startRecord) (f : List Char) (fs rs) (b : Bool)
+    (rest : List Char) :
+    feed (S st [] fs rs) b (encodeField f ++ delim :: rest) = feed (S .startField [] (f :: fs) rs) false rest := by
+  obtain ⟨st', h, e⟩ := feed_field st hst f fs rs b delim rest
+  rw [e, feed_cons_ne _ _ _ _ (by simp [delim])]
+  rcases h with ⟨rfl, rfl⟩ | rfl | rfl
+  · rcases hst with rfl | rfl
+    · rw [step_delim_startField]; simp
+    · rw [step_delim_startRecord]; simp
+  · rw [step_delim_inField]; simp
+  · rw [step_delim_quoteInQuoted]; simp
+
+theorem feed_field_crnl (st : St) (f : List Char) (hst : st = .startField ∨ (st = .startRecord ∧ f ≠ []))
+    (fs rs) (b : Bool) (rest : List Char) :
+    feed (S st [] fs rs) b (encodeField f ++ '\r' :: '\n' :: rest) =
+      feed (S .startRecord [] [] ((f :: fs).reverse :: rs)) true rest := by
+  obtain ⟨st', h, e⟩ := feed_field st (hst.imp id And.left) f fs rs b '\r' ('\n' :: rest)
+  rw [e, feed_cons_ne _ _ _ _ (by simp)]
+  rcases h with ⟨rfl, rfl⟩ | rfl | rfl
+  · rcases hst with rfl | ⟨_, h⟩
+    · rw [step_cr_startField, feed_nl_eatCrnl]; simp
+    · exact absurd rfl h
+  · rw [step_cr_inField, feed_nl_eatCrnl]; simp
+  · rw [step_cr_quoteInQuoted, feed_nl_eatCrnl]; simp
+
+theorem joinFields_cons_cons (f g : List Char) (more : List (List Char)) :
+    joinFields (f :: g :: more) = f ++ delim :: joinFields (g :: more) := by
+  simp [joinFields]
+
+/-- the fields of a record from the second one on -/
+theorem feed_fields (rs) (rest : List Char) :
+    ∀ (row : List (List Char)) (fs : List (List Char)) (b : Bool), row ≠ [] →
+      feed (S .startField [] fs rs) b (joinFields (row.map encodeField) ++ '\r' :: '\n' :: rest) =
+        feed (S .startRecord [] [] ((row.reverse ++ fs).reverse :: rs)) true rest
+  | [], _, _, h => absurd rfl h
+  | [f], fs, b, _ => by
+    simpa [joinFields] using feed_field_crnl .startField f (Or.inl rfl) fs rs b rest
+  | f :: g :: more, fs, b, _ => by
+    have ih := feed_fields rs rest (g :: more) (f :: fs) false (by simp)
+    rw [List.map_cons, List.map_cons, joinFields_cons_cons, List.append_assoc, List.cons_append,
+      feed_field_delim _ (Or.inl rfl), ← List.map_cons, ih]
+    simp
+
+theorem feed_row (row : List (List Char)) (rs) (b : Bool) (rest : List Char) :
+    feed (S .startRecord [] [] rs) b (encodeRow row ++ rest) = feed (S .startRecord [] [] (row :: rs)) true rest := by
+  unfold encodeRow
+  by_cases h : row = [[]]
+  · subst h
+    rw [if_pos (by simp)]
+    show feed _ b (quote :: quote :: '\r' :: '\n' :: rest) = _
+    rw [feed_cons_ne _ _ _ _ (by simp [quote]), step_quote_startRecord,
+      feed_cons_ne _ _ _ _ (by simp [quote]), step_quote_inQuoted,
+      feed_cons_ne _ _ _ _ (by simp), step_cr_quoteInQuoted, feed_nl_eatCrnl]
+    simp
+  · rw [if_neg (by simpa using h)]
+    match row, h with
+    | [], _ =>
+      show feed _ b ('\r' :: '\n' :: rest) = _
+      rw [feed_cons_ne _ _ _ _ (by simp), step_cr_startRecord, feed_nl_eatCrnl]
+      simp
+    | [f], h =>
+      have hf : f ≠ [] := by intro e; subst e; exact h rfl
+      simpa [joinFields] using feed_field_crnl .startRecord f (Or.inr ⟨rfl, hf⟩) [] rs b rest
+    | f :: g :: more, _ =>
+      have := feed_fields rs rest (g :: more) [f] false (by simp)
+      rw [List.map_cons, List.map_cons, joinFields_cons_cons, List.append_assoc, List.append_assoc, List.cons_append,
+        feed_field_delim _ (Or.inr rfl), ← List.map_cons, ← List.append_assoc]
+      simpa using this
+
+theorem feed_file : ∀ (rows : List (List (List Char))) (rs),
+    feed (S .startRecord [] [] rs) true (encodeFile rows) = S .startRecord [] [] (rows.reverse ++ rs)
+  | [], rs => by simp [encodeFile, feed, endInput]
+  | row :: more, rs => by
+    have ih := feed_file more (row :: rs)
+    have : encodeFile (row :: more) = encodeRow row ++ encodeFile more := by simp [encodeFile]
+    rw [this, feed_row, ih]; simp
+
+theorem parse_encodeFile (rows : List (List (List Char))) : parse (encodeFile rows) = some rows := by
+  unfold parse
+  have := feed_file rows []
+  simp only [S] at this
+  simp [this]
+
 end Pj.Csv
